@@ -22,7 +22,7 @@ use serde_json::json;
 use std::collections::BTreeSet;
 use std::sync::atomic::{AtomicU64, Ordering};
 use std::sync::{Arc, Mutex};
-use std::time::Instant;
+use std::time::{Duration, Instant};
 use vlib::history::{search, HistOut};
 use vlib::peer::{drive, settle, Auto, Body, Dirn, WFrame};
 use vlib::report::{Ctx, Outcome};
@@ -631,5 +631,182 @@ pub fn replay_b(r: &serde_json::Value, out: &mut Outcome) {
     for (s, dtl, _) in o.fails {
         println!("  FAIL {s}: {dtl}");
         out.violation(s, dtl, r.clone());
+    }
+}
+
+// ------------------------------------------------------------------------------------------------
+// Part E: what the receiver retains of deliveries that are settled from the start or never complete
+// ------------------------------------------------------------------------------------------------
+
+/// One incoming delivery: `frames` transfer frames, sent pre-settled or not, completed or aborted by its last frame.
+#[derive(Debug, Clone, Copy, PartialEq, Eq, Serialize, Deserialize)]
+pub struct Shape {
+    pub frames: usize,
+    pub presettled: bool,
+    pub aborted: bool,
+}
+
+/// A sequence of deliveries of the given shapes arrives; the application receives every completed one and accepts
+/// the unsettled ones (rcv-settle-mode first: that settles them).  Then: non-closing detach + resume.  "After
+/// settlement neither side retains the delivery in its unsettled state": a pre-settled delivery is settled when it
+/// arrives, an aborted one never existed, an accepted one is settled by the receiver's disposition - the attach of
+/// the resumed link must list none of them.
+pub async fn scenario_e(shapes: Vec<Shape>) -> (Vec<(String, String)>, Vec<String>, Option<String>) {
+    let mut fails = vec![];
+    let mut auto = Auto::default();
+    auto.next_outgoing_id = BASE_ID;
+    let mut c = match scen::open_client(auto, 512).await {
+        Ok(c) => c,
+        Err(e) => return (fails, vec![], Some(e)),
+    };
+    let mut session = match scen::begin(&mut c, Session::builder()).await {
+        Ok(s) => s,
+        Err(e) => return (fails, vec![], Some(e)),
+    };
+    let r = drive(&mut c.peer, Receiver::builder().name("r1").source("q").auto_accept(false).credit_mode(fe2o3_amqp::link::receiver::CreditMode::Auto(50)).attach(&mut session), scen::H).await;
+    let mut rx = match r {
+        Some(Ok(r)) => r,
+        _ => return (fails, vec![], Some("part E: attach failed".into())),
+    };
+    settle(&mut c.peer, 2).await;
+    let Some(link) = c.peer.links.first().cloned() else {
+        return (fails, vec![], Some("part E: the peer saw no attach".into()));
+    };
+    let ch = c.peer.our_channel(link.lib_channel);
+    for (k, sh) in shapes.iter().enumerate() {
+        let id = BASE_ID + k as u32;
+        let tag = format!("tag-{k}").into_bytes();
+        let body = payload(k);
+        // split the payload into `frames` pieces (the last may be empty when the delivery is aborted)
+        let n = sh.frames.max(1);
+        let piece = (body.len() / n).max(1);
+        for f in 0..n {
+            let last = f + 1 == n;
+            let chunk: &[u8] = if last { &body[(piece * f).min(body.len())..] } else { &body[(piece * f).min(body.len())..(piece * (f + 1)).min(body.len())] };
+            let t = Transfer {
+                handle: Handle(link.our_handle),
+                delivery_id: if f == 0 { Some(id) } else { None },
+                delivery_tag: if f == 0 { Some(serde_bytes::ByteBuf::from(tag.clone())) } else { None },
+                message_format: if f == 0 { Some(0) } else { None },
+                settled: Some(sh.presettled),
+                more: !last,
+                rcv_settle_mode: None,
+                state: None,
+                resume: false,
+                aborted: last && sh.aborted,
+                batchable: false,
+            };
+            c.peer.send_perf(ch, Performative::Transfer(t), if last && sh.aborted { &[] } else { chunk });
+        }
+        settle(&mut c.peer, 1).await;
+        if !sh.aborted {
+            match drive(&mut c.peer, rx.recv::<Value>(), SHORT).await {
+                Some(Ok(dv)) => {
+                    if !sh.presettled {
+                        if let Some(Err(e)) = drive(&mut c.peer, rx.accept(&dv), SHORT).await {
+                            return (fails, vlib::peer::trace_to_strings(&c.peer.trace), Some(format!("part E: accept #{k}: {e:?}")));
+                        }
+                    }
+                }
+                other => return (fails, vlib::peer::trace_to_strings(&c.peer.trace), Some(format!("part E: recv #{k}: {:?}", other.map(|r| r.map(|_| ()).map_err(|e| format!("{e:?}"))))))
+            }
+        } else {
+            // the receiver must notice the abort: give it a chance to read the frames
+            let _ = drive(&mut c.peer, rx.recv::<Value>(), Duration::from_millis(5)).await;
+        }
+    }
+    settle(&mut c.peer, 1).await;
+    let mark = c.peer.trace.len();
+    match drive(&mut c.peer, rx.detach(), SHORT).await {
+        Some(Ok(det)) => {
+            let _resumed = drive(&mut c.peer, det.resume(), SHORT).await;
+            settle(&mut c.peer, 1).await;
+            let att = c.peer.trace[mark..].iter().find_map(|w| match (&w.body, w.dir) {
+                (Body::Perf(Performative::Attach(a)), Dirn::FromLib) if a.name == "r1" => Some(a.clone()),
+                _ => None,
+            });
+            match att {
+                None => return (fails, vlib::peer::trace_to_strings(&c.peer.trace), Some("part E: no attach for r1 after detach + resume".into())),
+                Some(att) => {
+                    let keys: BTreeSet<Vec<u8>> = att.unsettled.as_ref().map(|m| m.keys().map(|k| k.to_vec()).collect()).unwrap_or_default();
+                    for (k, sh) in shapes.iter().enumerate() {
+                        if keys.contains(&format!("tag-{k}").into_bytes()) {
+                            let what = if sh.aborted { "aborted" } else if sh.presettled { "pre-settled" } else { "accepted-and-settled" };
+                            fails.push((
+                                format!("receiver-retains-settled-delivery[{what}{}]", if sh.frames > 1 { ", multi-frame" } else { "" }),
+                                format!("delivery {k} ({} frame(s), {what}) is still listed in `unsettled` of the receiver's attach after a non-closing detach + resume (deliveries: {:?})", sh.frames, shapes),
+                            ));
+                        }
+                    }
+                }
+            }
+        }
+        Some(Err((_, e))) => return (fails, vlib::peer::trace_to_strings(&c.peer.trace), Some(format!("part E: non-closing detach failed: {e:?}"))),
+        None => return (fails, vlib::peer::trace_to_strings(&c.peer.trace), Some("part E: non-closing detach hangs".into())),
+    }
+    (fails, vlib::peer::trace_to_strings(&c.peer.trace), None)
+}
+
+fn run_e(shapes: Vec<Shape>) -> (Vec<(String, String)>, Vec<String>, Option<String>) {
+    let sh = shapes.clone();
+    let scen: Scenario<(Vec<(String, String)>, Vec<String>, Option<String>)> = Arc::new(move || Box::pin(scenario_e(sh.clone())));
+    let ex = run_exec(vec![], &RunCfg::none(), &scen);
+    match ex.out {
+        Some((mut fails, trace, mach)) => {
+            if let Some((sig, msg)) = vlib::util::library_panic(&ex.panics) {
+                fails.push((sig, format!("a library task panicked: {msg}")));
+            }
+            (fails, trace, mach)
+        }
+        None => (vec![], vec![], Some(format!("part E {:?} died: {:?}", shapes, ex.panics))),
+    }
+}
+
+/// every sequence of one and of two deliveries over the 12 shapes (frames 1..3 x pre-settled x aborted)
+pub fn part_e(ctx: &Ctx, out: &mut Outcome) -> u64 {
+    let mut all: Vec<Shape> = vec![];
+    for frames in 1..=3usize {
+        for presettled in [false, true] {
+            for aborted in [false, true] {
+                all.push(Shape { frames, presettled, aborted });
+            }
+        }
+    }
+    let mut cases: Vec<Vec<Shape>> = all.iter().map(|s| vec![*s]).collect();
+    for a in &all {
+        for b in &all {
+            cases.push(vec![*a, *b]);
+        }
+    }
+    let results = vlib::util::par_map(&cases, ctx.threads, |_, shapes| run_e(shapes.clone()));
+    let mut seen: BTreeSet<String> = BTreeSet::new();
+    for (shapes, (fails, trace, mach)) in cases.iter().zip(results) {
+        if let Some(m) = mach {
+            if out.machinery_errors.len() < 8 {
+                out.machinery_errors.push(m);
+            }
+        }
+        for (s, d) in fails {
+            if seen.insert(s.clone()) {
+                out.violation(s, d, json!({"part": "E", "shapes": shapes, "trace": trace}));
+            }
+        }
+    }
+    cases.len() as u64
+}
+
+pub fn replay_e(r: &serde_json::Value, out: &mut Outcome) {
+    let shapes: Vec<Shape> = serde_json::from_value(r["shapes"].clone()).unwrap_or_default();
+    println!("replaying part E: {:?}", shapes);
+    let (fails, trace, mach) = run_e(shapes);
+    for l in &trace {
+        println!("  {l}");
+    }
+    if let Some(m) = mach {
+        out.machinery_errors.push(m);
+    }
+    for (s, d) in fails {
+        println!("  FAIL {s}: {d}");
+        out.violation(s, d, r.clone());
     }
 }
